@@ -170,54 +170,73 @@ Del(S, k) ==
 
 (*************************************************************************************)
 (* derived structure.  All walks are fuelled so that they are total on ANY decoded      *)
-(* image, also a corrupt one.                                                          *)
+(* image, also a corrupt one.  Derive(S) computes every walk once; the predicates take   *)
+(* the derived record D so that a state is walked once per evaluation.                   *)
 (*************************************************************************************)
 KSlots(S) == DOMAIN S.kf.slots
 VSlots(S) == DOMAIN S.vf.slots
+SeqSet(s) == {s[i] : i \in 1..Len(s)}
+NoDupSeq(s) == Cardinality(SeqSet(s)) = Len(s)
 
-\* chain of bucket b: <<sequence of offsets, well-formed?>>
+\* chain of bucket b: <<sequence of offsets, well-formed?>>.  Well-formed: ends at 0 within the
+\* fuel (so no cycle), every member is a slot start, no slot twice.
 RECURSIVE ChainFrom(_, _, _, _)
 ChainFrom(S, cur, acc, fuel) ==
     IF cur = 0 THEN <<acc, TRUE>>
-    ELSE IF fuel = 0 \/ cur \notin KSlots(S) \/ (\E i \in 1..Len(acc) : acc[i] = cur) THEN <<acc, FALSE>>
+    ELSE IF fuel = 0 \/ cur \notin KSlots(S) THEN <<acc, FALSE>>
     ELSE ChainFrom(S, S.kf.slots[cur].nxt, Append(acc, cur), fuel - 1)
-Chain(S, b) == ChainFrom(S, HeadOf(S, b), <<>>, Cardinality(KSlots(S)) + 1)
-
-SeqSet(s) == {s[i] : i \in 1..Len(s)}
-Reachable(S) == UNION {SeqSet(Chain(S, b)[1]) : b \in DOMAIN S.heads}
-ReachVals(S) == {S.kf.slots[o].voff : o \in Reachable(S)}
+Chain(S, b) == LET c == ChainFrom(S, HeadOf(S, b), <<>>, Cardinality(KSlots(S)) + 1) IN <<c[1], c[2] /\ NoDupSeq(c[1])>>
 
 \* free list i of file F: <<sequence of offsets, well-formed?>>
 RECURSIVE FreeFrom(_, _, _, _)
 FreeFrom(F, cur, acc, fuel) ==
     IF cur = 0 THEN <<acc, TRUE>>
-    ELSE IF fuel = 0 \/ cur \notin DOMAIN F.slots \/ (\E i \in 1..Len(acc) : acc[i] = cur) THEN <<acc, FALSE>>
+    ELSE IF fuel = 0 \/ cur \notin DOMAIN F.slots THEN <<acc, FALSE>>
     ELSE FreeFrom(F, F.slots[cur].fnext, Append(acc, cur), fuel - 1)
-FreeList(F, i) == FreeFrom(F, F.free[i], <<>>, Cardinality(DOMAIN F.slots) + 1)
+FreeList(F, i) == LET c == FreeFrom(F, F.free[i], <<>>, Cardinality(DOMAIN F.slots) + 1) IN <<c[1], c[2] /\ NoDupSeq(c[1])>>
+
+Derive(S) ==
+    LET ch    == [b \in DOMAIN S.heads |-> Chain(S, b)]
+        reach == UNION {SeqSet(ch[b][1]) : b \in DOMAIN S.heads}
+        kfl   == [i \in 1..NClasses |-> FreeList(S.kf, i)]
+        vfl   == [i \in 1..NClasses |-> FreeList(S.vf, i)]
+    IN [ch |-> ch, reach |-> reach, rvals |-> {S.kf.slots[o].voff : o \in reach},
+        kfl |-> kfl, vfl |-> vfl,
+        kfs |-> UNION {SeqSet(kfl[i][1]) : i \in 1..NClasses},
+        vfs |-> UNION {SeqSet(vfl[i][1]) : i \in 1..NClasses}]
+
+Reachable(S) == Derive(S).reach
+ReachVals(S) == Derive(S).rvals
 FreeSet(F) == UNION {SeqSet(FreeList(F, i)[1]) : i \in 1..NClasses}
 
 \* the contents an independent reader recovers: key id -> value id
-AbsMap(S) ==
-    LET R == Reachable(S)
-        K == {S.kf.slots[o].id : o \in R}
-    IN [k \in K |-> LET o == CHOOSE o \in R : S.kf.slots[o].id = k
+AbsMapD(S, D) ==
+    LET K == {S.kf.slots[o].id : o \in D.reach}
+    IN [k \in K |-> LET o == CHOOSE o \in D.reach : S.kf.slots[o].id = k
                         vo == S.kf.slots[o].voff
                     IN IF vo \in VSlots(S) THEN S.vf.slots[vo].id ELSE NoId]
+AbsMap(S) == AbsMapD(S, Derive(S))
 
 (*************************************************************************************)
 (* C05: the files decode to a consistent structure                                     *)
 (*************************************************************************************)
-ChainsOK(S)   == \A b \in DOMAIN S.heads : Chain(S, b)[2]
-HeadsOK(S)    == \A b \in DOMAIN S.heads : b \in 0..(S.n - 1) /\ S.heads[b] # 0
-BucketsOK(S)  == \A b \in DOMAIN S.heads : \A o \in SeqSet(Chain(S, b)[1]) :
-                    LET k == S.kf.slots[o].id IN k \in DOMAIN KLen /\ Bkt(k, S.n) = b
-NoDupKeys(S)  == \A o1, o2 \in Reachable(S) : S.kf.slots[o1].id = S.kf.slots[o2].id => o1 = o2
-ValRefsOK(S)  == \A o \in Reachable(S) : S.kf.slots[o].voff \in VSlots(S)
-NoSharedVal(S)== \A o1, o2 \in Reachable(S) : S.kf.slots[o1].voff = S.kf.slots[o2].voff => o1 = o2
-CountOK(S)    == S.cnt = Cardinality(Reachable(S))
-BitmapOK(S)   == DOMAIN S.heads \subseteq S.bm
-StructureOK(S) == /\ HeadsOK(S) /\ ChainsOK(S) /\ BucketsOK(S) /\ NoDupKeys(S)
-                  /\ ValRefsOK(S) /\ NoSharedVal(S) /\ CountOK(S) /\ BitmapOK(S)
+\* every chain is well-formed and no key slot is a member of two chains
+ChainsOKD(S, D)   == /\ \A b \in DOMAIN S.heads : D.ch[b][2]
+                     /\ Cardinality(UNION {{<<b, i>> : i \in 1..Len(D.ch[b][1])} : b \in DOMAIN S.heads})
+                          = Cardinality(D.reach)
+HeadsOK(S)        == \A b \in DOMAIN S.heads : b \in 0..(S.n - 1) /\ S.heads[b] # 0
+BucketsOKD(S, D)  == \A b \in DOMAIN S.heads : \A o \in SeqSet(D.ch[b][1]) :
+                        LET k == S.kf.slots[o].id IN k \in DOMAIN KLen /\ Bkt(k, S.n) = b
+NoDupKeysD(S, D)  == Cardinality({S.kf.slots[o].id : o \in D.reach}) = Cardinality(D.reach)
+ValRefsOKD(S, D)  == D.rvals \subseteq VSlots(S)
+NoSharedValD(S, D)== Cardinality(D.rvals) = Cardinality(D.reach)
+CountOKD(S, D)    == S.cnt = Cardinality(D.reach)
+BitmapOK(S)       == DOMAIN S.heads \subseteq S.bm
+StructureOKD(S, D) == /\ HeadsOK(S) /\ ChainsOKD(S, D) /\ BucketsOKD(S, D) /\ NoDupKeysD(S, D)
+                      /\ ValRefsOKD(S, D) /\ NoSharedValD(S, D) /\ CountOKD(S, D) /\ BitmapOK(S)
+StructureOK(S) == StructureOKD(S, Derive(S))
+ChainsOK(S) == ChainsOKD(S, Derive(S))
+ValRefsOK(S) == ValRefsOKD(S, Derive(S))
 \* the bitmap is exact in the design (not required by C05, which only needs "non-empty => flagged")
 BitmapExact(S) == S.bm = DOMAIN S.heads
 
@@ -233,39 +252,46 @@ WalkFrom(F, o, acc, fuel) ==
 Tiles(F, hdr) == LET w == WalkFrom(F, hdr, {}, Cardinality(DOMAIN F.slots) + 1) IN
                  w[2] /\ w[1] = DOMAIN F.slots
 SizesOK(F) == \A o \in DOMAIN F.slots : LET z == F.slots[o].size IN z % 8 = 0 /\ z >= 16 /\ LegalSize(z)
-FreeListsOK(F) ==
-    /\ \A i \in 1..NClasses : FreeList(F, i)[2]
-    /\ \A i \in 1..NClasses : \A o \in SeqSet(FreeList(F, i)[1]) :
+\* fl: the 16 derived lists of file F, fs: their union
+FreeListsOKD(F, fl, fs) ==
+    /\ \A i \in 1..NClasses : fl[i][2]
+    /\ \A i \in 1..NClasses : \A o \in SeqSet(fl[i][1]) :
            ClassIdx(F.slots[o].size) = i /\ F.slots[o].len = 0
-    /\ \A i, j \in 1..NClasses : i # j => SeqSet(FreeList(F, i)[1]) \cap SeqSet(FreeList(F, j)[1]) = {}
+    /\ Cardinality(fs) = Len(fl[1][1]) + Len(fl[2][1]) + Len(fl[3][1]) + Len(fl[4][1]) + Len(fl[5][1])       \* no slot on two lists
+           + Len(fl[6][1]) + Len(fl[7][1]) + Len(fl[8][1]) + Len(fl[9][1]) + Len(fl[10][1]) + Len(fl[11][1])
+           + Len(fl[12][1]) + Len(fl[13][1]) + Len(fl[14][1]) + Len(fl[15][1]) + Len(fl[16][1])
+FreeOKD(S, D) == FreeListsOKD(S.kf, D.kfl, D.kfs) /\ FreeListsOKD(S.vf, D.vfl, D.vfs)
 \* used xor free, nothing orphaned
-PartitionOK(F, usedset) ==
-    /\ usedset \cap FreeSet(F) = {}
-    /\ usedset \cup FreeSet(F) = DOMAIN F.slots
-SpaceOK(S) == /\ Tiles(S.kf, KeyHdr) /\ Tiles(S.vf, ValHdr)
-              /\ SizesOK(S.kf) /\ SizesOK(S.vf)
-              /\ FreeListsOK(S.kf) /\ FreeListsOK(S.vf)
-              /\ PartitionOK(S.kf, Reachable(S)) /\ PartitionOK(S.vf, ReachVals(S))
+PartitionOKD(F, usedset, fs) ==
+    /\ usedset \cap fs = {}
+    /\ usedset \cup fs = DOMAIN F.slots
+SpaceOKD(S, D) == /\ Tiles(S.kf, KeyHdr) /\ Tiles(S.vf, ValHdr)
+                  /\ SizesOK(S.kf) /\ SizesOK(S.vf)
+                  /\ FreeOKD(S, D)
+                  /\ PartitionOKD(S.kf, D.reach, D.kfs) /\ PartitionOKD(S.vf, D.rvals, D.vfs)
+SpaceOK(S) == SpaceOKD(S, Derive(S))
 \* the model's own `used` flags agree with reachability (consistency of the design layer)
-UsedFlagsOK(S) == /\ \A o \in KSlots(S) : S.kf.slots[o].used <=> o \in Reachable(S)
-                  /\ \A o \in VSlots(S) : S.vf.slots[o].used <=> o \in ReachVals(S)
+UsedFlagsOK(S) == LET D == Derive(S) IN
+                  /\ \A o \in KSlots(S) : S.kf.slots[o].used <=> o \in D.reach
+                  /\ \A o \in VSlots(S) : S.vf.slots[o].used <=> o \in D.rvals
 
 (*************************************************************************************)
 (* C09: every record fits the slot reserved for it, padding is zero                    *)
 (*************************************************************************************)
-FitsOK(S) ==
-    /\ \A o \in Reachable(S) : LET r == S.kf.slots[o] IN
+FitsOKD(S, D) ==
+    /\ \A o \in D.reach : LET r == S.kf.slots[o] IN
           KeyActual(r.len, r.voff, r.nxt, r.size) <= r.size /\ r.pad
-    /\ \A o \in ReachVals(S) \cap VSlots(S) : LET r == S.vf.slots[o] IN
+    /\ \A o \in D.rvals \cap VSlots(S) : LET r == S.vf.slots[o] IN
           ValActual(r.len, r.size) <= r.size /\ r.pad
-    /\ \A o \in FreeSet(S.kf) : FreeActual(S.kf.slots[o].size) <= S.kf.slots[o].size /\ S.kf.slots[o].pad
-    /\ \A o \in FreeSet(S.vf) : FreeActual(S.vf.slots[o].size) <= S.vf.slots[o].size /\ S.vf.slots[o].pad
+    /\ \A o \in D.kfs : FreeActual(S.kf.slots[o].size) <= S.kf.slots[o].size /\ S.kf.slots[o].pad
+    /\ \A o \in D.vfs : FreeActual(S.vf.slots[o].size) <= S.vf.slots[o].size /\ S.vf.slots[o].pad
+FitsOK(S) == FitsOKD(S, Derive(S))
 
 (*************************************************************************************)
 (* C17: what the statistics calls must report, as functions of the structure           *)
 (*************************************************************************************)
 \* count_of_free_*_piece: per class (in REC_SIZE_ARY order) the length of that list
-FreeCounts(F) == [i \in 1..NClasses |-> Len(FreeList(F, i)[1])]
+FreeCountsD(fl) == [i \in 1..NClasses |-> Len(fl[i][1])]
 \* histogram helper: value -> number of slots in `set` with that value, as a set of pairs
 Hist(set, val(_)) == {<<x, Cardinality({o \in set : val(o) = x})>> : x \in {val(o) : o \in set}}
 \* *_piece_size_stats / *_length_stats walk ALL slots and count those with a non-zero
@@ -275,14 +301,15 @@ KeyLenHist(S)  == LET X == {o \in KSlots(S) : S.kf.slots[o].len # 0} IN Hist(X, 
 ValSizeHist(S) == LET X == {o \in VSlots(S) : S.vf.slots[o].len # 0} IN Hist(X, LAMBDA o : S.vf.slots[o].size)
 ValLenHist(S)  == LET X == {o \in VSlots(S) : S.vf.slots[o].len # 0} IN Hist(X, LAMBDA o : S.vf.slots[o].len)
 \* the same figures from the live set only: what the property says they must be
-LiveKeySizeHist(S) == LET X == {o \in Reachable(S) : S.kf.slots[o].len # 0} IN Hist(X, LAMBDA o : S.kf.slots[o].size)
-LiveKeyLenHist(S)  == LET X == {o \in Reachable(S) : S.kf.slots[o].len # 0} IN Hist(X, LAMBDA o : S.kf.slots[o].len)
-LiveValSizeHist(S) == LET X == {o \in ReachVals(S) \cap VSlots(S) : S.vf.slots[o].len # 0} IN Hist(X, LAMBDA o : S.vf.slots[o].size)
-LiveValLenHist(S)  == LET X == {o \in ReachVals(S) \cap VSlots(S) : S.vf.slots[o].len # 0} IN Hist(X, LAMBDA o : S.vf.slots[o].len)
+LiveKeySizeHistD(S, D) == LET X == {o \in D.reach : S.kf.slots[o].len # 0} IN Hist(X, LAMBDA o : S.kf.slots[o].size)
+LiveKeyLenHistD(S, D)  == LET X == {o \in D.reach : S.kf.slots[o].len # 0} IN Hist(X, LAMBDA o : S.kf.slots[o].len)
+LiveValSizeHistD(S, D) == LET X == {o \in D.rvals \cap VSlots(S) : S.vf.slots[o].len # 0} IN Hist(X, LAMBDA o : S.vf.slots[o].size)
+LiveValLenHistD(S, D)  == LET X == {o \in D.rvals \cap VSlots(S) : S.vf.slots[o].len # 0} IN Hist(X, LAMBDA o : S.vf.slots[o].len)
 \* htx_filling_rate_per_mill: (non-empty buckets, count*1000 div n)
 Filling(S) == LET c == Cardinality(DOMAIN S.heads) IN <<c, (c * 1000) \div S.n>>
-StatsOK(S) == /\ KeySizeHist(S) = LiveKeySizeHist(S) /\ KeyLenHist(S) = LiveKeyLenHist(S)
-              /\ ValSizeHist(S) = LiveValSizeHist(S) /\ ValLenHist(S) = LiveValLenHist(S)
+StatsOK(S) == LET D == Derive(S) IN
+              /\ KeySizeHist(S) = LiveKeySizeHistD(S, D) /\ KeyLenHist(S) = LiveKeyLenHistD(S, D)
+              /\ ValSizeHist(S) = LiveValSizeHistD(S, D) /\ ValLenHist(S) = LiveValLenHistD(S, D)
 
 \* position of key k in its chain: "only" | "first" | "middle" | "last" | "absent"
 ChainPos(S, k) ==
